@@ -945,3 +945,137 @@ Proof.
     + intros X. apply root_id_in in X. tauto.
     + intros X. apply ctx_id_in in X. tauto.
 Qed.
+
+(* ------------------------------------------------------------------ zix_tree_remove *)
+(* zix_tree_remove of a live node *)
+Lemma h_remove_sim : forall n st fs,
+  Rep st fs -> avl (root fs) -> NoDup (ids (root fs)) -> size fs = count (root fs) ->
+  In n (ids (root fs)) ->
+  exists st' T' hc lg x,
+    rem n (root fs) = Some (T', hc, lg, x) /\
+    h_remove n st = Some (st', [(n, x)], lg) /\
+    Rep st' (mkState T' (size fs - 1) (nextid fs)).
+Proof.
+  intros n st fs RP A ND Sz IN.
+  destruct (locate st fs n RP A ND IN) as (c & d & b & l & r & L).
+  pose proof L as L0.
+  destruct L as [HT Hn Rl Rr RC NDl Al Ar Hb Rb AC Hroot INT].
+  set (h := hp st) in *.
+  assert (NIn : ~ In n (cids c)) by (intros X; nd_absurd NDl n).
+  assert (NDc : NoDup (cids c)).
+  { apply nodup_app_disj in NDl. destruct NDl as (_ & ND' & _). inversion ND' as [|? ? _ ND2]. apply nodup_app_disj in ND2. tauto. }
+  assert (Ppar : parent h n = ctx_id c) by (unfold parent; rewrite Hn; reflexivity).
+  assert (Dn : data_of h n = d) by (unfold data_of; rewrite Hn; reflexivity).
+  assert (Ln : left h n = root_id l) by (unfold left; rewrite Hn; reflexivity).
+  assert (Rn : right h n = root_id r) by (unfold right; rewrite Hn; reflexivity).
+  unfold h_remove. fold h. rewrite !Ln, !Rn. rewrite Dn.
+  destruct l as [|lroot ld lb ll lr]; destruct r as [|rroot rd rb rl rr]; cbn [root_id].
+  - (* leaf *)
+    destruct (ctx_id c) as [g|] eqn:Eg.
+    + destruct (ctx_root_in c (Some n)) as (g0 & Eg0 & Ig0); [congruence|].
+      assert (PR : ptr_is (hroot st) n = false).
+      { rewrite Hroot, Eg0. cbn [ptr_is]. apply Z.eqb_neq. intros ->. contradiction. }
+      rewrite PR. rewrite Ppar.
+      destruct (repc_set_hole h c n None g RC NIn NDc Eg) as (RC1 & F1). cbn zeta in RC1, F1.
+      set (h1 := if ptr_is (left h g) n then set_left h g None else set_right h g None) in *.
+      destruct (splice_sim st fs n c d b E E E h1 (hroot st) (if ptr_is (left h g) n then 1 else -1) RP ND Sz L0) as (h' & E1 & RP' & ER).
+      * left. split; reflexivity.
+      * exact I.
+      * exact RC1.
+      * rewrite Hroot. apply ctx_root_nontop. congruence.
+      * intros _. rewrite (child_link h c n g RC NIn Eg). destruct c; cbn in Eg; try discriminate; reflexivity.
+      * intros j Hj. apply F1. intros ->. apply Hj. apply INT. right. right. right. apply ctx_id_in. assumption.
+      * rewrite Eg in E1. rewrite E1.
+        destruct (up_del c E (-1) []) as [[T' hc] lg] eqn:EU. cbn [fst snd] in *.
+        do 5 eexists. split; [exact ER|]. split; [reflexivity|exact RP'].
+    + destruct c; cbn in Eg; try discriminate. cbn [ctx_root] in Hroot. rewrite Hroot. cbn [ptr_is]. rewrite Z.eqb_refl.
+      cbn [plug] in HT.
+      do 5 eexists. split; [rewrite HT; cbn [rem]; rewrite Z.eqb_refl; cbn [delete_here]; reflexivity|].
+      split; [reflexivity|].
+      destruct RP as (R0 & _ & Hsize & Hnext & Dom).
+      unfold Rep. cbn [hp hroot hsize hnextid root size nextid rep root_id]. repeat split; try lia; try assumption.
+      intros j Hj. rewrite hget_hdel in Hj. destruct (j =? n) eqn:C; [congruence|].
+      apply Dom in Hj. rewrite HT in Hj. cbn in Hj. lia.
+  - (* right child only *)
+    rewrite Ppar.
+    pose proof (set_pp_sim h c n (Some rroot) RC NIn NDc) as SP. cbn zeta in SP. rewrite <- Hroot in SP.
+    destruct (set_pp h (hroot st) _ (Some rroot)) as [h1 rt1]. cbn [fst snd] in SP.
+    destruct SP as (RC1 & Ert & F1 & DB).
+    assert (Nng : ctx_id c <> Some n) by (intros X; apply ctx_id_in in X; contradiction).
+    assert (P1 : parent h1 n = ctx_id c) by (unfold parent; rewrite F1 by assumption; fold h; rewrite Hn; reflexivity).
+    rewrite P1.
+    set (h2 := set_parent h1 rroot (ctx_id c)).
+    change (ids E) with (@nil Z) in NDl. cbn [app] in NDl. rewrite ids_N in NDl.
+    assert (Nrg : ctx_id c <> Some rroot) by (intros X; apply ctx_id_in in X; nd_absurd NDl rroot).
+    cbn [rep root_id] in Rr. destruct Rr as (Hr & Rrl & Rrr).
+    assert (F2 : forall j, j <> rroot -> ctx_id c <> Some j -> hget h2 j = hget h j).
+    { intros j X Y. subst h2. rewrite hget_set_parent. eqb_simp. apply F1. assumption. }
+    match goal with |- context [h_rem_retrace _ _ _ _ ?dd _] => set (dbal := dd) in * end.
+    destruct (splice_sim st fs n c d b E (N rroot rd rb rl rr) (N rroot rd rb rl rr) h2 rt1 dbal RP ND Sz L0) as (h' & E1 & RP' & ER).
+    + right. split; reflexivity.
+    + cbn [rep root_id]. repeat split.
+      * subst h2. rewrite hget_set_parent. eqb_simp. rewrite F1 by assumption. fold h. rewrite Hr. reflexivity.
+      * eapply rep_ext; [|exact Rrl]. intros j Hj. apply F2; [nd_neq NDl|]. intros X. apply ctx_id_in in X. nd_absurd NDl j.
+      * eapply rep_ext; [|exact Rrr]. intros j Hj. apply F2; [nd_neq NDl|]. intros X. apply ctx_id_in in X. nd_absurd NDl j.
+    + cbn [root_id]. eapply repc_ext; [|exact RC1]. intros j Hj. subst h2. rewrite hget_set_parent.
+      assert (j <> rroot) by nd_neq NDl. eqb_simp. reflexivity.
+    + exact Ert.
+    + intros NT. rewrite DB. destruct c; [cbn in NT; congruence|reflexivity|reflexivity].
+    + intros j Hj. apply F2.
+      * intros ->. apply Hj. apply INT. right. right. left. rewrite ids_N. in_tauto.
+      * intros X. apply ctx_id_in in X. apply Hj. apply INT. tauto.
+    + rewrite E1. destruct (up_del c (N rroot rd rb rl rr) (-1) []) as [[T' hc] lg] eqn:EU. cbn [fst snd] in *.
+      do 5 eexists. split; [exact ER|]. split; [reflexivity|exact RP'].
+  - (* left child only *)
+    rewrite Ppar.
+    pose proof (set_pp_sim h c n (Some lroot) RC NIn NDc) as SP. cbn zeta in SP. rewrite <- Hroot in SP.
+    destruct (set_pp h (hroot st) _ (Some lroot)) as [h1 rt1]. cbn [fst snd] in SP.
+    destruct SP as (RC1 & Ert & F1 & DB).
+    assert (Nng : ctx_id c <> Some n) by (intros X; apply ctx_id_in in X; contradiction).
+    assert (P1 : parent h1 n = ctx_id c) by (unfold parent; rewrite F1 by assumption; fold h; rewrite Hn; reflexivity).
+    rewrite P1.
+    set (h2 := set_parent h1 lroot (ctx_id c)).
+    change (ids E) with (@nil Z) in NDl. cbn [app] in NDl. rewrite ids_N in NDl.
+    assert (Nrg : ctx_id c <> Some lroot) by (intros X; apply ctx_id_in in X; nd_absurd NDl lroot).
+    cbn [rep root_id] in Rl. destruct Rl as (Hl & Rll & Rlr).
+    assert (F2 : forall j, j <> lroot -> ctx_id c <> Some j -> hget h2 j = hget h j).
+    { intros j X Y. subst h2. rewrite hget_set_parent. eqb_simp. apply F1. assumption. }
+    match goal with |- context [h_rem_retrace _ _ _ _ ?dd _] => set (dbal := dd) in * end.
+    destruct (splice_sim st fs n c d b (N lroot ld lb ll lr) E (N lroot ld lb ll lr) h2 rt1 dbal RP ND Sz L0) as (h' & E1 & RP' & ER).
+    + left. split; reflexivity.
+    + cbn [rep root_id]. repeat split.
+      * subst h2. rewrite hget_set_parent. eqb_simp. rewrite F1 by assumption. fold h. rewrite Hl. reflexivity.
+      * eapply rep_ext; [|exact Rll]. intros j Hj. apply F2; [nd_neq NDl|]. intros X. apply ctx_id_in in X. nd_absurd NDl j.
+      * eapply rep_ext; [|exact Rlr]. intros j Hj. apply F2; [nd_neq NDl|]. intros X. apply ctx_id_in in X. nd_absurd NDl j.
+    + cbn [root_id]. eapply repc_ext; [|exact RC1]. intros j Hj. subst h2. rewrite hget_set_parent.
+      assert (j <> lroot) by nd_neq NDl. eqb_simp. reflexivity.
+    + exact Ert.
+    + intros NT. rewrite DB. destruct c; [cbn in NT; congruence|reflexivity|reflexivity].
+    + intros j Hj. apply F2.
+      * intros ->. apply Hj. apply INT. left. rewrite ids_N. in_tauto.
+      * intros X. apply ctx_id_in in X. apply Hj. apply INT. tauto.
+    + rewrite E1. destruct (up_del c (N lroot ld lb ll lr) (-1) []) as [[T' hc] lg] eqn:EU. cbn [fst snd] in *.
+      do 5 eexists. split; [exact ER|]. split; [reflexivity|exact RP'].
+  - (* two children *)
+    destruct (rem_two n c d b (N lroot ld lb ll lr) rroot rd rb rl rr ltac:(discriminate) NIn)
+      as (cs & m & dm & bm & rm & Er & S & ER).
+    rewrite <- HT in ER.
+    set (r := N rroot rd rb rl rr) in *.
+    assert (LM : h_leftmost (fuel_of st) h rroot = Some m).
+    { rewrite (h_leftmost_rep r h (Some n) (fuel_of st) rroot Rr eq_refl).
+      - rewrite Er. rewrite leftmost_spine; [reflexivity|exact S|discriminate].
+      - pose proof (Rep_fuel st fs RP Sz) as FU. rewrite HT in FU.
+        pose proof (height_plug_bound c (N n d b (N lroot ld lb ll lr) r)) as HB. cbn [heightn] in HB. lia. }
+    rewrite LM.
+    destruct (h_replace_sim st fs n c d b (N lroot ld lb ll lr) r cs m dm bm rm L0 ltac:(discriminate) Er S)
+      as (rp & Prp & HR). fold h in Prp, HR. rewrite Prp. cbn zeta in HR.
+    destruct (replace_pure st fs n c d b (N lroot ld lb ll lr) r cs m dm bm rm L0 Er S) as (NDcc & Arm & ACcc & INcc & _ & _).
+    destruct (h_replace h (hroot st) n m rp) as [[[h9 rt4] tb] dbal]. cbn [fst snd] in HR.
+    destruct HR as (R9 & RC9 & Ert & Etb & Edb & F9).
+    set (cc := capp cs (CR m dm b (N lroot ld lb ll lr) c)) in *.
+    destruct (remove_finish st fs n cc rm h9 rt4 dbal RP ND Sz NDcc R9 RC9 Arm ACcc Ert (fun _ => Edb) INcc F9)
+      as (h' & E1 & RP').
+    rewrite Etb. rewrite E1.
+    destruct (up_del cc rm (-1) []) as [[T' hc] lg] eqn:EU. cbn [fst snd] in *.
+    do 5 eexists. split; [exact ER|]. split; [reflexivity|exact RP'].
+Qed.
